@@ -6,6 +6,7 @@ import (
 	"encoding/hex"
 	"encoding/json"
 	"fmt"
+	"io"
 	"math"
 	"os"
 	"runtime"
@@ -34,7 +35,7 @@ const tsBase = uint64(1700000000000)
 const indexName = "c01idx"
 
 // ---------- ops and observations ----------
-// kinds: card (N) ; procs (N) ; ingest (Docs) ; flush (Probe) ; reread (Orders) ; rotate ; query (Page) ; restart (runner only)
+// kinds: card (N) ; procs (N) ; ingest (Docs) ; flush (Probe, Light) ; reread (Orders) ; rotate ; query (Page) ; latescan ; restart (runner only)
 type Op struct {
 	Kind  string   `json:"k"`
 	N     int      `json:"n,omitempty"`
@@ -44,6 +45,7 @@ type Op struct {
 	Text  string   `json:"text,omitempty"` // query text (default *)
 	Nulls bool     `json:"nulls,omitempty"` // query with includeNulls=true
 	Orders [][]int `json:"orders,omitempty"` // reread: block-number sequences, each read by ONE reader set
+	Light bool     `json:"light,omitempty"`  // probe flush of a large block: per column only whether the block reads back as the open block's column
 }
 
 // one column of one flushed block
@@ -63,6 +65,13 @@ type ColObs struct {
 	HasSeen bool     `json:"hasseen"`
 	Recs    []string `json:"recs"`    // hex: real SegmentFileReader per record, no constant length passed ("!"+err on error)
 	RecsSC  []string `json:"recssc"`  // the same with the segment's constant record length (only when there is one)
+	// every probe flush: the column block as stored cannot be read back (zstd / reader error); light probe
+	// flushes: whether the records the real reader returns, concatenated, are the open block's column buffer
+	HasData bool   `json:"hasdata,omitempty"` // cbufidx > 0 in the open block: the flush starts a goroutine for the column
+	ReadErr string `json:"readerr,omitempty"`
+	NRecs   int    `json:"nrecs,omitempty"`
+	SameAsOpen bool `json:"same_as_open,omitempty"`
+	FirstDiff  int  `json:"first_diff,omitempty"` // first record that differs from the open block's column (light)
 }
 
 type FlushObs struct {
@@ -105,7 +114,45 @@ type Obs struct {
 	Pages   int                 `json:"pages,omitempty"`
 }
 
+// startGate: InitQueryNode starts the start-up scan of the segment directories (initSyncSegMetaForAllIds ->
+// syncSegMetaWithSegFullMeta) in a goroutine of its own.  A server has finished it long before the first
+// flush; in a worker that ingests microseconds after initNode (GOMAXPROCS 1, loaded machine) the scan can
+// run AFTER the first flush; before the repair b77ca50 it then registered the open segment's running .sfm as a
+// rotated segment (class startup_scan_adopts_open_segment, exercised on purpose by the latescan stream, now a
+// regression).  The worker still waits for the scan's log line (one per org id) before it executes the first
+// op, so that every other stream is independent of the scheduling of that goroutine.
+type scanGate struct{ ch chan struct{} }
+
+func (g *scanGate) Levels() []log.Level { return []log.Level{log.InfoLevel, log.ErrorLevel} }
+func (g *scanGate) Fire(e *log.Entry) error {
+	if strings.HasPrefix(e.Message, "syncSegMetaWithSegFullMeta: myid=") || strings.HasPrefix(e.Message, "syncSegMetaWithSegFullMeta: Error in getting vtable names") {
+		select {
+		case g.ch <- struct{}{}:
+		default:
+		}
+	}
+	return nil
+}
+
 func initNode(dir string) error {
+	gate := &scanGate{ch: make(chan struct{}, 16)}
+	lvl, out := log.GetLevel(), log.StandardLogger().Out
+	log.SetOutput(io.Discard)
+	log.SetLevel(log.InfoLevel)
+	log.AddHook(gate)
+	defer func() {
+		// wait for the start-up scan (at most 20 s), then restore the logger
+		deadline := time.After(20 * time.Second)
+		for n := len(serverutils.GetMyIds()); n > 0; n-- {
+			select {
+			case <-gate.ch:
+			case <-deadline:
+				n = 0
+			}
+		}
+		log.SetLevel(lvl)
+		log.SetOutput(out)
+	}()
 	config.InitializeTestingConfig(dir + "/")
 	config.SetNewQueryPipelineEnabled(true)
 	limit.InitMemoryLimiter()
@@ -242,7 +289,7 @@ func dictObs(d map[string][]uint16) [][]string {
 
 // probeFlush: snapshot the open WIP blocks, flush, then read
 // the blocks just written back from disk (raw bytes and through the real readers).
-func probeFlush() ([]FlushObs, error) {
+func probeFlush(light bool) ([]FlushObs, error) {
 	pre := writer.VerifC01Snapshot()
 	zero := time.Duration(0)
 	writer.FlushWipBufferToFile(&zero, &zero)
@@ -318,13 +365,19 @@ func probeFlush() ([]FlushObs, error) {
 				}
 				continue
 			}
-			co := ColObs{Name: c.Name, Pre: hex.EncodeToString(c.Buf), PreDict: dictObs(c.Dict), PreCnt: int(c.DeCount),
-				InBlock: c.InBlock, Bloom: c.Bloom, RI: c.RI, Enc: -1}
+			co := ColObs{Name: c.Name, PreCnt: int(c.DeCount), InBlock: c.InBlock, Bloom: c.Bloom, RI: c.RI, Enc: -1, HasData: len(c.Buf) > 0}
+			if !light {
+				co.Pre, co.PreDict = hex.EncodeToString(c.Buf), dictObs(c.Dict)
+			}
 			co.Seen, co.HasSeen = seenAfter[p.StreamId][c.Name]
 			co.Post = co.Pre
 			b, ok, err := readBlock(c.Name)
 			if err != nil {
-				return nil, fmt.Errorf("column %q: %v", c.Name, err)
+				// the stored block cannot be read from its file (checksum of the chunk, short file): reported
+				// as an oracle failure by the runner
+				co.ReadErr = fmt.Sprintf("the block of column %q in block %d (%d records) cannot be read from its .csg file: %v", c.Name, p.NumBlocks, p.RecCount, err)
+				fo.Cols = append(fo.Cols, co)
+				continue
 			}
 			if ok {
 				co.Enc = int(b[0])
@@ -332,11 +385,16 @@ func probeFlush() ([]FlushObs, error) {
 				if b[0] == sutils.ZSTD_COMLUNAR_BLOCK[0] {
 					pl, err = zdec.DecodeAll(b[1:], nil)
 					if err != nil {
-						return nil, fmt.Errorf("column %q: zstd: %v", c.Name, err)
+						// the stored block is not a zstd frame: reported as an oracle failure by the runner
+						co.ReadErr = fmt.Sprintf("the %d-byte zstd block of column %q in block %d (%d records) does not decompress: %v", len(b)-1, c.Name, p.NumBlocks, p.RecCount, err)
+						fo.Cols = append(fo.Cols, co)
+						continue
 					}
 				}
-				co.Payload = hex.EncodeToString(pl)
-				if b[0] == sutils.ZSTD_COMLUNAR_BLOCK[0] {
+				if !light {
+					co.Payload = hex.EncodeToString(pl)
+				}
+				if b[0] == sutils.ZSTD_COMLUNAR_BLOCK[0] && !light {
 					// a raw block is the column buffer as consolidateColumnTypes left it
 					co.Post = co.Payload
 				}
@@ -377,6 +435,32 @@ func probeFlush() ([]FlushObs, error) {
 				}
 				// the match-all record fetch passes INCONSISTENT_CVAL_SIZE (recordreader.go)
 				co.Recs = readAll(sutils.INCONSISTENT_CVAL_SIZE)
+				if light {
+					// large block: compare here instead of shipping the bytes.  The column buffer of the open block is
+					// the concatenation of its records (these scenarios have one value kind per column: no rewriting
+					// by consolidateColumnTypes)
+					co.NRecs, co.SameAsOpen, co.FirstDiff = len(co.Recs), true, -1
+					off := 0
+					for k, rh := range co.Recs {
+						if strings.HasPrefix(rh, "!") {
+							co.ReadErr = fmt.Sprintf("record %d of column %q in block %d: %s", k, c.Name, p.NumBlocks, rh[1:])
+							co.SameAsOpen = false
+							break
+						}
+						rb, _ := hex.DecodeString(rh)
+						if off+len(rb) > len(c.Buf) || string(c.Buf[off:off+len(rb)]) != string(rb) {
+							co.SameAsOpen, co.FirstDiff = false, k
+							break
+						}
+						off += len(rb)
+					}
+					if co.SameAsOpen && off != len(c.Buf) {
+						co.SameAsOpen, co.FirstDiff = false, len(co.Recs)
+					}
+					co.Recs = nil
+					fo.Cols = append(fo.Cols, co)
+					continue
+				}
 				// the search path passes the segment's AllSeenColumnSizes value
 				if co.HasSeen && co.Seen != sutils.INCONSISTENT_CVAL_SIZE && co.Seen > 0 {
 					co.RecsSC = readAll(co.Seen)
@@ -583,13 +667,18 @@ func workerMain(dir, scriptPath, outPath string) {
 			}
 		case "flush":
 			if op.Probe {
-				fl, err := probeFlush()
+				fl, err := probeFlush(op.Light)
 				if err != nil {
 					obs[i].Err = err.Error()
 				}
 				obs[i].Flushes = fl
 			} else {
 				writer.FlushWipBufferToFile(&zero, &zero)
+			}
+		case "latescan":
+			// the start-up scan of InitQueryNode scheduled only now (known stream)
+			for _, id := range serverutils.GetMyIds() {
+				obs[i].Count += query.VerifC01LateStartupScan(id)
 			}
 		case "rotate":
 			writer.ForceRotateSegmentsForTest()
